@@ -31,7 +31,7 @@ func (p *c12) Exhaustive() bool { return true }
 
 // template names; "" kinds are inline sources run through the string loader
 var c12Names = []string{"t.html", "t.html.twig", "t.js", "t.js.twig", "t.css", "t.txt", "t", "t.twig", "t.xml", "t.foo.twig", "t.url", "t.html_attr",
-	"a.b/c", "dir.d/page", "t.HTML", "t.json", "t.txt.twig", "app.min.js", "app.bundle.js.twig", "theme.dark.css", "notes.2024.txt.twig", "v1.2/page", "lib.js/readme",
+	"a.b/c", "dir.d/page", "t.HTML", "t.json", "NOTES.TXT", "Widget.JS", "theme.Css.twig", "T.Url", "x.Html_Attr", "Readme.Txt.twig", "t.jS", "page.js.TWIG", "t.txt.twig", "app.min.js", "app.bundle.js.twig", "theme.dark.css", "notes.2024.txt.twig", "v1.2/page", "lib.js/readme",
 	// file names with characters that also occur in delimiters: still file names
 	"sale-50%.js", "my%20script.js.twig", "theme{dark}.css", "terms-100%.txt", "a{b.js", "c}}d.css", "#notes.txt", "50%{x}.html_attr",
 	// path elements that spell an extension are no extension: an extension follows the last dot of the name
@@ -129,6 +129,12 @@ var c12Constructs = []c12construct{
 				m: "{% extends '" + h + "' %}{% block b %}[1:{{ x }}]{% endblock %}",
 				h: "p [2:{{ x }}] {% block b %}[3:{{ x }}]{% endblock %} [4:{{ x }}]"},
 			[]c12site{{id: "1", tpl: m, direct: true}, {id: "2", tpl: h, direct: true}, {id: "4", tpl: h, direct: true}}
+	}},
+	{"overriding-block-inside-other-statements-of-the-child", true, func(m, h string) (map[string]string, []c12site) {
+		return map[string]string{
+				m: "{% extends '" + h + "' %}{% if t %}{% block b %}[1:{{ x }}]{% endblock %}{% endif %}{% for i in [1] %}{% block c %}[5:{{ x }}]{% endblock %}{% endfor %}{% filter upper %}{% block d %}[6:{{ x }}]{% endblock %}{% endfilter %}",
+				h: "p [2:{{ x }}] {% block b %}[3:{{ x }}]{% endblock %}{% block c %}no{% endblock %}{% block d %}no{% endblock %} [4:{{ x }}]"},
+			[]c12site{{id: "1", tpl: m, direct: true}, {id: "5", tpl: m, direct: true}, {id: "6", tpl: m, direct: true}, {id: "2", tpl: h, direct: true}, {id: "4", tpl: h, direct: true}}
 	}},
 	{"inherited-block", true, func(m, h string) (map[string]string, []c12site) {
 		return map[string]string{
